@@ -2454,7 +2454,9 @@ PPL::MIP_Problem::OK() const {
 
     // Check that every integer declared variable is really integer.
     // in the solution found.
-    if (!i_variables.empty()) {
+    // Note: when the problem is only partially satisfiable the cached point
+    // refers to the problem as it was before the latest additions.
+    if (!i_variables.empty() && status != PARTIALLY_SATISFIABLE) {
       PPL_DIRTY_TEMP_COEFFICIENT(gcd);
       // TODO: This can be optimized more, exploiting the (possible)
       // sparseness of last_generator, if the size of i_variables is expected
